@@ -584,4 +584,47 @@ theorem gen_issue_sites : Gen.issueSites = [
   "isContainedIn:Blocking="
 ] := by decide
 
+/-! ## The same statement about the code translated from today's source
+
+`Gen.Fn.V2.XClaims_Validate` are the translator's output for the seven `Validate` methods (regenerated on every run);
+`FnTie` proves each equal to the model's validator under `OpqOk` (what stays outside the translation behaves as the
+model environment). Chaining the two gives C06 for the translated code itself. -/
+
+open Jwt.FnTie Jwt.Gen.Fn in
+/-- `c.Validate(vr)` on a fresh result list, by the dynamic kind of the claims (the dispatch Go's interface performs) -/
+def genValidate (opq : V2.Opq) (now : Int) (c : Claims) : Option V2.T_ValidationResults :=
+  match c.kind with
+  | .operator => V2.OperatorClaims_Validate (V2.T_OperatorClaims.ofVal c.val) vr0 now opq
+  | .account => (V2.AccountClaims_Validate (V2.T_AccountClaims.ofVal c.val) vr0 now opq).map (·.2)
+  | .user => V2.UserClaims_Validate (V2.T_UserClaims.ofVal c.val) vr0 now opq
+  | .activation => V2.ActivationClaims_Validate (V2.T_ActivationClaims.ofVal c.val) vr0 now opq
+  | .authRequest => V2.AuthorizationRequestClaims_Validate (V2.T_AuthorizationRequestClaims.ofVal c.val) vr0 now opq
+  | .authResponse => V2.AuthorizationResponseClaims_Validate (V2.T_AuthorizationResponseClaims.ofVal c.val) vr0 now opq
+  | .generic => V2.GenericClaims_Validate (V2.T_GenericClaims.ofVal c.val) vr0 now
+
+open Jwt.FnTie Jwt.Gen.Fn in
+/-- the translated validators never panic and report, up to order, the model's issues -/
+theorem genValidate_eq (env : VEnv) (cr : Crypto) (opq : V2.Opq) (ok : OpqOk env cr opq) (now : Int) (c : Claims) :
+    ∃ l, genValidate opq now c = some (push vr0 l) ∧ l.Perm (validate env cr now c) := by
+  unfold genValidate validate
+  cases hk : c.kind
+  · exact ⟨_, v2_operatorClaimsValidate env opq ok.url ok.atoi ok.acct ok.op c.val vr0 now, List.Perm.refl _⟩
+  · obtain ⟨a', l, h, hp⟩ := gen_account env cr opq ok c.val now
+    exact ⟨l, by simp [h], hp⟩
+  · exact ⟨_, v2_userClaimsValidate env opq ok.clock ok.cidr ok.tz ok.acct c.val vr0 now, List.Perm.refl _⟩
+  · refine ⟨_, ?_, List.Perm.refl _⟩
+    simp [V2.ActivationClaims_Validate, v2_validateWithTimeChecks opq ok.acct]
+  · exact ⟨_, v2_authRequestValidate opq ok.user c.val vr0 now, List.Perm.refl _⟩
+  · exact ⟨_, v2_authResponseValidate opq ok.user ok.server ok.acct c.val vr0 now, List.Perm.refl _⟩
+  · exact ⟨_, v2_genericClaimsValidate c.val vr0 now, List.Perm.refl _⟩
+
+open Jwt.FnTie Jwt.Gen.Fn in
+/-- **C06 for the translated code.** For every claim kind, the code translated from today's source — `Validate`
+followed by `IsBlocking(false)` — never panics and answers `true` exactly when the claims violate a catalogue row. -/
+theorem gen_blocking_iff (env : VEnv) (cr : Crypto) (opq : V2.Opq) (ok : OpqOk env cr opq) (now : Int) (c : Claims) :
+    ∃ w, genValidate opq now c = some w ∧ V2.ValidationResults_IsBlocking w false = some (bad env cr c) := by
+  obtain ⟨l, h, hp⟩ := genValidate_eq env cr opq ok now c
+  refine ⟨_, h, ?_⟩
+  rw [isBlocking_push_vr0, isBlocking_perm hp, blocking_iff]
+
 end Jwt.C06
